@@ -47,7 +47,23 @@ def cells():
                 if k == "third_party_invite":
                     val = {"display_name": "d", "signed": {"mxid": "@a:b", "token": "t"}}
                 out.append((v, {"type": t, "content": {k: val}}, "content:" + k))
+    # event types one edit away from a special-cased type are ordinary types: their content is stripped
+    special = ["m.room.member", "m.room.create", "m.room.join_rules", "m.room.power_levels", "m.room.aliases",
+               "m.room.history_visibility", "m.room.redaction"]
+    for v in VERSIONS:
+        for t in special:
+            last = t.rsplit(".", 1)[1]
+            for nt in (last, "m.room.m.room." + last, t + "2", t.upper(), t + ".x", "room." + last, " " + t, t[:-1], "m.room." + last + " ",
+                       "m." + last, "m.room", ""):
+                for k in CONTENT_KEYS_OF[t] + ["junk"]:
+                    val = "marker-" + k
+                    if k == "third_party_invite":
+                        val = {"display_name": "d", "signed": {"mxid": "@a:b", "token": "t"}}
+                    out.append((v, {"type": nt, "content": {k: val}}, "near-miss-type:" + k))
     return out
+
+
+CONTENT_KEYS_OF = pdu.CONTENT_KEYS
 
 
 def fmt(o):
